@@ -92,7 +92,9 @@ CmdHDel(s, now, a) ==
 CmdHIncrBy(s, now, a) ==
   IF Len(a) # 4 THEN One(RErr, s, "hincrby.arity")
   ELSE LET p == ParseBig(a[4]) IN
-    IF WrongFor(s, a[2], "hash") THEN One(RWrong, s, "hincrby.wrongtype")
+    IF WrongFor(s, a[2], "hash") THEN
+      \* error precedence is not fixed by the reference: wrong type AND invalid increment -> either error
+      WithCorner(~p.ok \/ p.corner, One(RWrong, s, "hincrby.wrongtype"), s, "hincrby.wrongtype_alt")
     ELSE IF ~p.ok THEN One(RErr, s, "hincrby.argnotint")
     ELSE LET f == HashOf(s, a[2])
              cur == IF a[3] \in DOMAIN f THEN ParseBig(f[a[3]]) ELSE [ok |-> TRUE, corner |-> FALSE, n |-> BigZero]
@@ -107,7 +109,8 @@ CmdHIncrBy(s, now, a) ==
 CmdHIncrByFloat(s, now, a) ==
   IF Len(a) # 4 THEN One(RErr, s, "hincrbyfloat.arity")
   ELSE LET p == ParseDec(a[4]) IN
-    IF WrongFor(s, a[2], "hash") THEN One(RWrong, s, "hincrbyfloat.wrongtype")
+    IF WrongFor(s, a[2], "hash") THEN
+      WithCorner(~p.ok \/ p.corner, One(RWrong, s, "hincrbyfloat.wrongtype"), s, "hincrbyfloat.wrongtype_alt")
     ELSE IF ~p.ok THEN One(RErr, s, "hincrbyfloat.argnotfloat")
     ELSE LET f == HashOf(s, a[2])
              cur == IF a[3] \in DOMAIN f THEN ParseDec(f[a[3]]) ELSE ParseDec(L_zero)
@@ -130,7 +133,10 @@ Distinct(q) == \A i, j \in 1..Len(q) : i # j => q[i] # q[j]
 CmdHRandField(s, now, a, h) ==
   IF Len(a) < 2 \/ Len(a) > 4 THEN One(RErr, s, "hrandfield.arity")
   ELSE IF Len(a) = 4 /\ Lower(a[4]) # L_withvalues THEN One(RErr, s, "hrandfield.syntax")
-  ELSE IF WrongFor(s, a[2], "hash") THEN One(RWrong, s, "hrandfield.wrongtype")
+  ELSE IF WrongFor(s, a[2], "hash") THEN
+    \* wrong type AND invalid count -> either error (precedence not fixed by the reference)
+    WithCorner(Len(a) >= 3 /\ (~ParseSmall(a[3]).ok \/ ParseSmall(a[3]).corner),
+               One(RWrong, s, "hrandfield.wrongtype"), s, "hrandfield.wrongtype_alt")
   ELSE LET f == HashOf(s, a[2])
            fs == HFields(f)
            wv == Len(a) = 4
